@@ -152,7 +152,7 @@ theorem parse_preJ {K : Consts} {ts : TypeSystem} {cass : List Cas} {c : Cas} {c
     ?_, ?_, ?_, ?_, ?_, ?_⟩
   · intro heapF hconv
     rw [parseFs_flatJFs K ts tsIdx s cass H q.1 o t hNJ]
-    have hgt : getType ts (flatJFsS ts cass H q.1 o t).ty = .ok t := getType_of_find ht
+    have hgt : getTypeExact ts (flatJFsS ts cass H q.1 o t).ty = .ok t := getTypeExact_of_find ht
     have hpa' : isPrimitiveArray K t.name = false := by rw [htn]; exact hpa
     have hfa' : t.name ≠ FS_ARRAY := by rw [htn]; exact hfa
     refine parseFs_steps K ts tsIdx s _ t q.1 _ o0 _ heapF _ hend hgt rfl hpa' hfa' hN ?_ ?_ hconv
